@@ -463,6 +463,9 @@ def s_assets(draw):
             props.append([key, near if sub is None else sub + "/" + near])
         elif m == 8:
             props.append([key, draw(st.sampled_from(["missing.png", "Missing Banner.png", "nothing.ogg"]))])
+        elif m == 9 and files and draw(st.booleans()):
+            # a path that runs *through* a regular file of the directory: nothing can exist at that place
+            props.append([key, draw(st.sampled_from(files)) + draw(st.sampled_from(["/banner.png", "/img/banner.png", "/a/b/bg.jpg", "/song.ogg"]))])
         else:
             props.append([key, draw(st.sampled_from(["nosuchdir/banner.png", "nosuchdir/bg.jpg", "SUB/song.ogg", "extras/banner.png"]))])
     order = draw(st.permutations([k for k, _ in KINDS]))
